@@ -150,6 +150,8 @@ def _kind(e):
         return "value-error"
     if isinstance(e, TypeError):
         return "type-error"
+    if isinstance(e, RecursionError):
+        return "recursion-error"
     return "other:" + type(e).__name__
 
 
@@ -553,8 +555,10 @@ def _nas_streams(ctx, cs):
             cs.add("upqsetpv" + tag, "upq %d | %s" % (s_, secs), _nas_reply(r, True), inp,
                    nontrivial=r[0] == "ok" and bool(np.any(r[1])), branch=br)
 
+    nsep = 0
     for it in range(ctx.pick(150, 1500)):
-        nas, info = N.gen_nas(rng)
+        # every tenth dictionary has a forced chain of depth 3 or 4 below the residual
+        nas, info = N.gen_nas(rng, deep=(3 + it // 10 % 2) if it % 10 == 0 else None)
         ses = info["order"]
         kind = {}
         for c in ses:
@@ -562,25 +566,43 @@ def _nas_streams(ctx, cs):
             kind[c] = "seconct" if any(v > N.INTERNAL for v in dn) else "csuper"
         both(nas, "", ses + [rng.choice([0, 999])], [0] + ses + ([999] if rng.random() < 0.2 else []),
              {"kind": kind, "upa": info["expected_upa"], "upq": info["expected_upq"], "style": info["style"]})
+        # the hypothesis of upqsetpv_spec (separate connections) holds on every consistent generated dictionary
+        cs.add("upqsetpv-separate", "sep | %s" % N.serialize(nas), "ok 1", {"nas": N.to_plain(nas)},
+               nontrivial=len(ses) > 1, branch="upqsetpv:separate")
+        nsep += 1
         depth2 = any(info["parent"][c] != 0 for c in ses)
         if depth2:
             ctx.count("upqsetpv:recursive")
+        if info["depth"] >= 3:
+            ctx.count("upqsetpv:depth-3")
+        if info["depth"] >= 4:
+            ctx.count("upqsetpv:depth-4")
+        if any(len(v) >= 2 for v in info["children"].values()):
+            ctx.count("upqsetpv:several-upstream")
+        if any(len(v) >= 2 for k_, v in info["children"].items() if k_ != 0):
+            ctx.count("upqsetpv:several-upstream-above-residual")
+        flagged = lambda c: any(info["expected_upq"].get(info["parent"][c], []))
+        if any(flagged(c) for c in info["reordered"]):
+            ctx.count("upqsetpv:maps-reordered")
+        if any(flagged(c) and info["parent"][c] != 0 for c in info["reordered"]):
+            ctx.count("upqsetpv:maps-reordered-above-residual")
         if info["style"] == "noq":
             ctx.count("upqsetpv:spoint-rule")
         if any(info["skipped"].values()):
             ctx.count("upasetpv:maps-skip")
         if it < 3 * len(N.DAMAGES) or rng.random() < 0.6:
             bad, what, cbad = N.damage(rng, nas, N.DAMAGES[it % len(N.DAMAGES)] if it < 3 * len(N.DAMAGES) else None)
-            try:
-                both(bad, "-damaged", sorted({cbad} | {c for c in ses if rng.random() < 0.5}),
-                     [0] + [c for c in ses if rng.random() < 0.3])
-                ctx.count("nas-damage:" + what)
-            except RecursionError:
-                ctx.skip("damaged dictionary with a cyclic selist")
+            both(bad, "-damaged", sorted({cbad} | {c for c in ses if rng.random() < 0.5}),
+                 [0] + ([cbad] if what == "selist-cycle" else []) + [c for c in ses if rng.random() < 0.3])
+            ctx.count("nas-damage:" + what)
     for name, nas in N.real_dictionaries(ctx.repo):
         sl = np.asarray(nas["selist"]).tolist()
         both(nas, "-real", sorted({r_[0] for r_ in sl}), sorted({r_[1] for r_ in sl} | {r_[0] for r_ in sl}))
         ctx.count("nas-real-dictionary")
+        cs.add("upqsetpv-separate-real", "sep | %s" % N.serialize(nas), None, {"file": name}, nontrivial=True,
+               branch="upqsetpv:separate-real")
+    ctx.extra["upqsetpv_spec_hypothesis"] = (
+        "Separate (driver op `sep`) holds on all %d consistent generated dictionaries of this run" % nsep)
 
 
 def _canon_slice(r):
@@ -852,6 +874,83 @@ def _float_streams(ctx, cs):
                branch="find_unique:" + ("ok" if r[0] == "ok" else r[0]))
 
 
+def _index_streams(ctx, cs):
+    """n2p._findse / n2p._get_node_ids (private helpers of upasetpv / upqsetpv; skipped when a refactoring removed
+    them), mat_intersect with every value of keep on data whose matching rows are not in sorted order"""
+    n2p, locate = _mods()
+    rng = ctx.rng
+    findse = getattr(n2p, "_findse", None)
+    nodeids = getattr(n2p, "_get_node_ids", None)
+    ctx.extra["private_helpers_present"] = {"_findse": findse is not None, "_get_node_ids": nodeids is not None}
+    for _ in range(ctx.pick(150, 1500)):
+        if findse is None:
+            ctx.skip("n2p._findse is gone (private helper)")
+            break
+        n = rng.randint(0, 6)
+        sl = [[rng.choice([0, 10, 20, 30, 101]), rng.choice([0, 0, 10, 20])] for _ in range(n)]
+        se = rng.choice([0, 10, 20, 30, 101, 7])
+        r = _call(findse, {"selist": np.array(sl, dtype=np.int64).reshape(-1, 2)}, se)
+        impl = "ok %d" % int(r[1]) if r[0] == "ok" else r[0]
+        first = [k for k, row in enumerate(sl) if row[0] == se]
+        br = "findse:" + ("absent" if not first else "repeated" if len(first) > 1 else "once")
+        cs.add("findse", "findse %d | %s" % (se, _s([v for row in sl for v in row])), impl,
+               {"selist": sl, "se": se}, nontrivial=bool(first), branch=br)
+    masks = {k: int(v) for k, v in n2p.mkusetmask().items()}
+    for _ in range(ctx.pick(100, 1000)):
+        if nodeids is None:
+            ctx.skip("n2p._get_node_ids is gone (private helper)")
+            break
+        rows, nas, style = _gen_table(ctx, masks)
+        if rng.random() < 0.3 and rows:  # a grid given DOF by DOF, or only some of its DOF listed (dof 1 missing)
+            k = rng.randrange(len(rows))
+            if rows[k][1] == 123456:
+                rows = [list(x) for x in rows]
+                nas = list(nas)
+                rows[k:k + 1] = [[rows[k][0], d] for d in range(1, 7)]
+                nas[k:k + 1] = [nas[k]] * 6
+        r = _call(n2p.make_uset, rows, nas)
+        if r[0] != "ok":
+            continue
+        uset = r[1]
+        if rng.random() < 0.3 and uset.shape[0] > 2:  # drop some rows: a node without its first DOF has no id
+            keep = sorted(rng.sample(range(uset.shape[0]), rng.randint(1, uset.shape[0] - 1)))
+            uset = uset.iloc[keep]
+        tbl = []
+        for (i, d), w in zip(uset.index.tolist(), uset["nasset"].values.tolist()):
+            tbl += [int(i), int(d), int(w)]
+        r = _call(nodeids, uset)
+        impl = ("ok " + _s(np.asarray(r[1]))).strip() if r[0] == "ok" else r[0]
+        nodes = len({int(i) for i in uset.index.get_level_values("id")})
+        br = "nodeids:" + ("one-per-node" if r[0] == "ok" and len(r[1]) == nodes else "fewer")
+        cs.add("nodeids", "nodeids | %s" % _s(tbl), impl, {"table": tbl}, nontrivial=True, branch=br)
+    # mat_intersect: the looped side reports its matching rows in their original order (descending / shuffled values)
+    fm = lambda D: " ; ".join(_s(r_) for r_ in D)
+    for _ in range(ctx.pick(300, 3000)):
+        keep = rng.choice([0, 1, 2, 2, 3, 5])
+        c = rng.choice([1, 1, 2])
+        pool = [[rng.randint(0, 9) for _ in range(c)] for _ in range(8)]
+        pool = [list(t) for t in dict.fromkeys(tuple(x) for x in pool)]
+        D1 = rng.sample(pool, rng.randint(1, len(pool)))
+        D2 = rng.sample(pool, rng.randint(1, len(pool)))
+        if rng.random() < 0.3:
+            D2 = sorted(D2, reverse=True)
+        a1, a2 = ([x[0] for x in D1], [x[0] for x in D2]) if c == 1 and rng.random() < 0.5 else (D1, D2)
+        r = _call(locate.mat_intersect, a1, a2, keep)
+        if r[0] == "ok":
+            pv1, pv2 = _il(r[1][0]), _il(r[1][1])
+            impl = "ok %s | %s" % (_s(pv1), _s(pv2))
+            sw = not ((keep == 0 and len(D1) <= len(D2)) or keep == 1)
+            looped, pvl = (D2, pv2) if sw else (D1, pv1)
+            vals = [looped[i] for i in pvl if 0 <= i < len(looped)]
+            br = "mat_intersect-order:" + ("unsorted-values" if vals != sorted(vals) else "sorted-values")
+            if vals != sorted(vals):
+                ctx.count("mat_intersect-order:keep%s" % (keep if keep < 3 else "-other"))
+        else:
+            impl, br = r[0], "mat_intersect-order:" + r[0]
+        cs.add("mat_intersect-order", "matint %d %d %d | %s | %s" % (keep, c, c, fm(D1), fm(D2)), impl,
+               {"D1": a1, "D2": a2, "keep": keep}, nontrivial=True, branch=br)
+
+
 def correspondence(ctx):
     cs = Cases(ctx)
     masks = _uset_streams(ctx, cs)
@@ -859,11 +958,15 @@ def correspondence(ctx):
         _makeuset_xyz_stream(ctx, cs, masks)
         _nas_streams(ctx, cs)
     _locate_streams(ctx, cs)
+    _index_streams(ctx, cs)
     _float_streams(ctx, cs)
     rep = ctx.driver("C18").ask([it[1] for it in cs.items])
     for (stream, line, impl, inp, nontriv, branch), got in zip(cs.items, rep):
         ctx.case(line, nontrivial=nontriv, branch=branch)
         ctx.count("stream:" + stream)
+        if impl is None:  # no implementation counterpart: the model's answer is recorded in the evidence
+            ctx.extra.setdefault("separate_on_real_files", []).append([inp.get("file"), " ".join(got.split())])
+            continue
         want = " ".join(impl.split())
         got_c = " ".join(got.split())
         if stream == "make_uset-xyz" and got_c == "type-error" and want == "value-error":
@@ -901,7 +1004,14 @@ def correspondence(ctx):
         "upasetpv:key-error", "upasetpv:index-error",
         "upqsetpv:some", "upqsetpv:none", "upqsetpv:recursive", "upqsetpv:spoint-rule", "upqsetpv:value-error",
         "upqsetpv:key-error", "nas-real-dictionary",
-    ] + ["nas-damage:" + w for w in __import__("props.c18_nas", fromlist=["DAMAGES"]).DAMAGES])
+        "upqsetpv:separate", "upqsetpv:separate-real", "upqsetpv:depth-3", "upqsetpv:depth-4",
+        "upqsetpv:several-upstream", "upqsetpv:several-upstream-above-residual", "upqsetpv:maps-reordered",
+        "upqsetpv:maps-reordered-above-residual", "upqsetpv:recursion-error",
+        "mat_intersect-order:unsorted-values", "mat_intersect-order:keep0", "mat_intersect-order:keep1",
+        "mat_intersect-order:keep2", "mat_intersect-order:keep-other",
+    ] + (["findse:absent", "findse:once", "findse:repeated"] if ctx.extra["private_helpers_present"]["_findse"] else [])
+      + (["nodeids:one-per-node", "nodeids:fewer"] if ctx.extra["private_helpers_present"]["_get_node_ids"] else [])
+      + ["nas-damage:" + w for w in __import__("props.c18_nas", fromlist=["DAMAGES"]).DAMAGES])
 
 
 # ---------------------------------------------------------------------------------------
